@@ -736,18 +736,28 @@ func unescapeRunes(r []rune, i, end int) string {
 
 				i += 6
 			case char1 == 'C' && char2 == '-': // \C- control prefix
-				if char3 == '?' {
+				switch {
+				case char3 == '?':
 					seq = append(seq, Delete)
-				} else {
+				case char3 == '\\' && (char4 == '\\' || char4 == '"' || char4 == '\''):
+					// the character is itself escaped: \C-\\
+					seq = append(seq, Encontrol(char4))
+					i++
+				default:
 					seq = append(seq, Encontrol(char3))
 				}
 
 				i += 3
 			case char1 == 'M' && char2 == '-': // \M- meta prefix
-				if char3 == 0 {
+				switch {
+				case char3 == 0:
 					seq = append(seq, Esc)
 					i += 2
-				} else {
+				case char3 == '\\' && (char4 == '\\' || char4 == '"' || char4 == '\''):
+					// the character is itself escaped: \M-\\
+					seq = append(seq, Enmeta(char4))
+					i += 4
+				default:
 					seq = append(seq, Enmeta(char3))
 					i += 3
 				}
